@@ -139,19 +139,19 @@ Proof.
   all: try (intros Hb; apply Hunmu in Hb; discriminate).
 Qed.
 
-Lemma live_not_idle w t p f : Inv w -> thread w t = TLive p f -> idle_pc (pc_of w) = false.
+Lemma live_not_idle w t p f : Inv w -> t <> AP -> thread w t = TLive p f -> idle_pc (pc_of w) = false.
 Proof.
-  intros H Et. destruct (idle_pc (pc_of w)) eqn:Ei; [|reflexivity].
+  intros H Hap Et. destruct (idle_pc (pc_of w)) eqn:Ei; [|reflexivity].
   apply (inv_idle w H) in Ei. unfold all_dead, thread in *.
-  destruct t; cbn in Et; rewrite Et in Ei; cbn in Ei; intuition discriminate.
+  destruct t; try congruence; cbn in Et; rewrite Et in Ei; cbn in Ei; intuition discriminate.
 Qed.
 
 Lemma idle_saved p : saved_pc p = true -> idle_pc p = true.
 Proof. destruct p; cbn; congruence. Qed.
 
-Lemma inv_callback w t p f : Inv w -> thread w t = TLive p f -> Inv (callback w t).
+Lemma inv_callback w t p f : Inv w -> t <> AP -> thread w t = TLive p f -> Inv (callback w t).
 Proof.
-  intros H Et. pose proof (live_not_idle w t p f H Et) as Hni. inv_destruct H.
+  intros H Hap Et. pose proof (live_not_idle w t p f H Hap Et) as Hni. inv_destruct H.
   unfold callback, set_dat. constructor; cbn; try assumption.
   - intros Hs. apply idle_saved in Hs. unfold pc_of in *. cbn in Hs. congruence.
   - rewrite Hlate. cbn. destruct (can_call t); [|reflexivity]. cbn.
@@ -314,10 +314,13 @@ Ltac thr :=
   try match goal with |- context [match ?c with COut => _ | CTx => _ end] => destruct c end;
   unfold thread in *; cbn; rewrite ?thr_restart, ?thr_request_stop; cbn; eassumption.
 
+Lemma inv_set_ap w s : Inv w -> Inv (set_thread w AP s).
+Proof. intros H. inv_destruct H. constructor; assumption. Qed.
+
 Lemma inv_after_add w t p f f' ok : Inv w -> thread w t = TLive p f -> Inv (after_add w t f' ok).
 Proof.
   intros H Et. unfold after_add.
-  destruct t, ok; try (eapply inv_set_live; eassumption).
+  destruct t, ok; try (eapply inv_set_live; eassumption); try (apply inv_set_ap; exact H).
   eapply inv_exit; [exact H|eassumption|discriminate].
 Qed.
 
@@ -348,8 +351,8 @@ Proof.
                         | _ => Some (end_body w t)
                         end
       | _, _ => Some (end_body w t)
-      end = Some w'' -> Inv w'').
-  { intros w'' E'. destruct k, f as [|f']; try (injection E' as <-; eapply inv_end_body; eassumption).
+      end = Some w'' -> t <> AP -> Inv w'').
+  { intros w'' E' Hap. destruct k, f as [|f']; try (injection E' as <-; eapply inv_end_body; eassumption).
     - injection E' as <-. eapply inv_set_live; [eapply inv_callback; eassumption|thr].
     - destruct (uses_out t); injection E' as <-; [eapply inv_set_live; eassumption|eapply inv_end_body; eassumption].
     - destruct (uses_tx t); injection E' as <-; [eapply inv_set_live; eassumption|eapply inv_end_body; eassumption].
@@ -357,14 +360,15 @@ Proof.
       eapply inv_spawn_un; [eapply inv_set_live; eassumption|]. unfold thread. cbn. reflexivity.
     - injection E' as <-. eapply inv_fail_exit; eassumption.
     - injection E' as <-. eapply inv_fail_exit; eassumption. }
-  destruct t; try (apply Hprod; exact E).
+  destruct t; try (apply Hprod; [exact E|discriminate]).
   - (* SO *) injection E as <-. destruct k; (eapply inv_set_live; [first [apply inv_restart, H|exact H]|thr]).
   - (* PU *)
     destruct k; destruct (d_pufail (w_dat w)); try destruct daf; injection E as <-;
       first [ eapply inv_exit; [apply inv_set_pufail, inv_request_stop, H|thr|discriminate]
             | eapply inv_set_live; [apply inv_set_pufail, inv_request_stop, H|thr]
-            | eapply inv_set_live; [eapply inv_callback; eassumption|thr]
+            | eapply inv_set_live; [eapply inv_callback; [eassumption|discriminate|eassumption]|thr]
             | eapply inv_set_live; eassumption ].
+  - discriminate.
 Qed.
 
 Lemma inv_consume w t c p f w' : Inv w -> thread w t = TLive p f -> t <> MU -> consume w t c = Some w' -> Inv w'.
@@ -388,6 +392,7 @@ Proof.
   - injection E as <-. destruct (stopping w); [eapply inv_exit; [exact H|eassumption|discriminate]|eapply inv_set_live; eassumption].
   - injection E as <-. destruct (stopping w); eapply inv_set_live; eassumption.
   - destruct (w_ustop w); [|discriminate]. injection E as <-. eapply inv_exit; [exact H|eassumption|discriminate].
+  - discriminate.
 Qed.
 
 Lemma inv_read_step w p f w' : Inv w -> thread w MI = TLive p f -> read_step w = Some w' -> Inv w'.
@@ -435,7 +440,10 @@ Proof.
   - destruct (w_conn w); try discriminate. injection E as <-. apply inv_set_conn, H.
   - unfold thread in E. cbn in E. destruct (t_un (w_thr w)) as [| |p f|] eqn:Et; try discriminate. destruct p; try discriminate.
     destruct (w_ustop w); [discriminate|]. injection E as <-. eapply inv_set_live; [exact H|]. unfold thread. cbn. exact Et.
-  - destruct (thread w t) eqn:Et; try discriminate. injection E as <-. apply inv_register; assumption.
+  - unfold thread in E. cbn in E. destruct (t_ap (w_thr w)); try discriminate. injection E as <-. apply inv_set_ap, H.
+  - unfold thread in E. destruct t; cbn in E; try discriminate;
+      match type of E with match ?x with _ => _ end = _ => destruct x eqn:Et end; try discriminate;
+      injection E as <-; (apply inv_register; [exact H|exact Et]).
   - eapply Inv_step_thread; eassumption.
 Qed.
 
